@@ -4,7 +4,11 @@ import numpy as np
 from fnmenu import exc_name
 
 # exceptions that must never be swallowed by an observation
-FATAL = (KeyboardInterrupt, SystemExit, MemoryError, GeneratorExit)
+class Hang(BaseException):
+    """raised by the per-observation alarm: the implementation did not come back"""
+
+
+FATAL = (KeyboardInterrupt, SystemExit, MemoryError, GeneratorExit, Hang)
 
 
 def canon(x):
